@@ -16,7 +16,7 @@ namespace Dropshot.DriverC14
 /-! ### selector type family -/
 
 inductive Ty
-  | str | u64 | i64 | bool
+  | str | u64 | i64 | u128 | i128 | bool
   | unitEnum (names : List Bytes)
   | opt (t : Ty)
   | vec (t : Ty)
@@ -37,6 +37,8 @@ mutual
       if s = ascii "S" then some .str
       else if s = ascii "U64" then some .u64
       else if s = ascii "I64" then some .i64
+      else if s = ascii "U128" then some .u128
+      else if s = ascii "I128" then some .i128
       else if s = ascii "B" then some .bool
       else if s = ascii "N" then some .nest
       else none
@@ -86,6 +88,9 @@ partial def decTy : Ty → JVal → Option JVal
   | .str, .str s => some (.str s)
   | .u64, .num n => if 0 ≤ n ∧ n < 18446744073709551616 then some (.num n) else none
   | .i64, .num n => if -9223372036854775808 ≤ n ∧ n < 9223372036854775808 then some (.num n) else none
+  | .u128, .num n => if 0 ≤ n ∧ n < 340282366920938463463374607431768211456 then some (.num n) else none
+  | .i128, .num n =>
+    if -170141183460469231731687303715884105728 ≤ n ∧ n < 170141183460469231731687303715884105728 then some (.num n) else none
   | .bool, .bool b => some (.bool b)
   | .unitEnum names, .str s => if names.contains s then some (.str s) else none
   | .unitEnum names, .obj (.cons k .null .nil) => if names.contains k then some (.str k) else none
